@@ -17,7 +17,7 @@ use uom::si::length::meter;
 pub fn def() -> PropDef {
     PropDef {
         id: "C19",
-        rule: "inputs: whole runs of 1..=4 MIDAS files written by the harness (16/32/32a bank headers, both endiannesses, .mid and .mid.lz4, ODB dumps of varying length), each with 0..=60 events: main events (TRG-only, small hit-pattern events, a few forward-model events so that real vertices appear, and undecodable ones: truncated TRG, unknown bank, duplicate TRG, missing TRG, corrupted wire bank - at the start, middle and end), chronobox, sequencer and unknown event ids interleaved; arbitrary serial numbers; TRG timestamps stepping by up to 2^32 - 1 so that the cumulative time crosses 2^32 several times; consistent file timestamps; files given in a generated argument order; RAYON_NUM_THREADS in {1, 2, 5, 16}; refusal cases: a file of another run (any one of the files, or an extra later one), duplicate initial timestamps, unknown extension; oracle (the real release binaries, built from the working tree): exit status 0 and one row per main event in initial-timestamp order of the files with the event's serial number; decodability and every column from the library (MainEvent::try_from_banks(..).vertex() / TrgPacket accessors), floats compared by bits after parsing; undecodable rows empty; consecutive decodable rows differ in trg_time by wrapping_sub(ts_j, ts_i) / 62.5 MHz (integer clock counts, error < 1e-3); CSV body byte-identical across thread counts and argument orders; refusal cases exit non-zero without a CSV; non-trivial = >= 2 files given out of order, >= 1 wrap of the 32-bit timestamp, >= 1 undecodable event that is not last, or a refusal case; distinct by run hash",
+        rule: "inputs: whole runs of 1..=4 MIDAS files written by the harness (16/32/32a bank headers, both endiannesses, .mid and .mid.lz4, ODB dumps of varying length), each with 0..=60 events: main events (TRG-only, small hit-pattern events, a few forward-model events so that real vertices appear, and undecodable ones: truncated TRG, unknown bank, duplicate TRG, missing TRG, no bank at all, corrupted wire bank - at the start, middle and end), chronobox, sequencer and unknown event ids interleaved; arbitrary serial numbers; TRG timestamps stepping by up to 2^32 - 1 so that the cumulative time crosses 2^32 several times; consistent file timestamps; files given in a generated argument order; RAYON_NUM_THREADS in {1, 2, 5, 16}; refusal cases: a file of another run (any one of the files, or an extra later one), duplicate initial timestamps, unknown extension; oracle (the real release binaries, built from the working tree): exit status 0 and one row per main event in initial-timestamp order of the files with the event's serial number; decodability and every column from the library (MainEvent::try_from_banks(..).vertex() / TrgPacket accessors), floats compared by bits after parsing; undecodable rows empty; consecutive decodable rows differ in trg_time by wrapping_sub(ts_j, ts_i) / 62.5 MHz (integer clock counts, error < 1e-3); CSV body byte-identical across thread counts and argument orders; refusal cases exit non-zero without a CSV; non-trivial = >= 2 files given out of order, >= 1 wrap of the 32-bit timestamp, >= 1 undecodable event that is not last, or a refusal case; distinct by run hash",
         assumptions: &[
             "thread interleavings are not controlled; only thread counts are varied",
             "bank names are 4 ASCII alphanumerics (anything else is rejected by midasio before the programs see it)",
@@ -32,7 +32,7 @@ pub enum Kind {
     TrgOnly,
     Hits(HitEvent),
     Forward(Truth),
-    /// 0 truncated TRG, 1 unknown bank, 2 duplicate TRG, 3 no TRG, 4 corrupted wire bank, 5 two different TRG banks
+    /// 0 truncated TRG, 1 unknown bank, 2 duplicate TRG, 3 no TRG, 4 corrupted wire bank, 5 two different TRG banks, 6 no bank at all
     Bad(u8),
     Chronobox(Vec<u8>),
     Sequencer(Vec<u8>),
@@ -131,7 +131,8 @@ fn build_run(c: &RunCase) -> Built {
                             b[0] = trg;
                             b
                         }
-                        Kind::Bad(how) => match how % 6 {
+                        Kind::Bad(how) => match how % 7 {
+                            6 => vec![],
                             0 => vec![("ATAT".into(), trg.1[..79].to_vec())],
                             1 => vec![trg, ("XXXX".into(), vec![1, 2, 3])],
                             2 => vec![trg.clone(), trg],
@@ -358,7 +359,7 @@ fn ev_spec() -> impl Strategy<Value = EvSpec> {
     let kind = prop_oneof![
         12 => Just(Kind::TrgOnly),
         2 => hit_event(3).prop_map(|mut h| { h.wire_bins = 120; h.pad_bins = 120; Kind::Hits(h) }),
-        4 => (0u8..6).prop_map(Kind::Bad),
+        4 => (0u8..7).prop_map(Kind::Bad),
         2 => vec(any::<u8>(), 0..=24).prop_map(Kind::Chronobox),
         1 => vec(any::<u8>(), 0..=24).prop_map(Kind::Sequencer),
         1 => any::<u16>().prop_map(Kind::Other),
